@@ -163,8 +163,59 @@ def examine_key(case):
     return []
 
 
+def examine_usage(case):
+    import random as _r
+    from vlib import variants as _v
+    rng = _r.Random(17)
+    sp = mod('sportshall_score')
+
+    def spellings(k):
+        out = [k, ' ' + k + ' ', k.lower(), '\t' + k, k + '\n']
+        for _ in range(6):
+            kind, v = _v.variant(k, rng.randrange)
+            out.append(v)
+            out.append(' ' + v + '  ')
+        return out
+    for g, tab in list(junior.tyrving_tables().items()):
+        for k, params in list(tab.items()):
+            ages = junior.tyrving_ages(params)
+            for s_ in spellings(k):
+                call(athlib.tyrving_score, g, ages[0], s_, 10.0)
+                call(athlib.tyrving_score, g.lower(), ages[0], s_, '10.00')
+    for ct, tab in list(junior.qkids_tables().items()):
+        for k in list(tab):
+            for s_ in spellings(k):
+                call(athlib.qkids_score, ct, s_, 10.0)
+    for k in list(mod('sportshall_score').RAWDATA[0][1:]):
+        for s_ in spellings(k):
+            call(sp.sportshall_score, s_, '10')
+    for key in list(junior.bulgarian_tables()):
+        for s_ in spellings(key[4:]):
+            call(mod('bulgarian_score').score, 'U16', key[3], s_, 10.0)
+    for o in mod('athlon_score')._scoring_table:
+        for s_ in spellings(o['event_code']):
+            call(athlib.athlon_score, o['gender'], s_, 10.0)
+            call(athlib.athlon_performance_needed, o['gender'], s_, 500)
+    for row in mod('hungarian_score').FACTORS[:40]:
+        for s_ in spellings(row[2]):
+            call(athlib.hungarian_score, row[0], row[1], s_, 10.0)
+    for e in ('100', 'HJ', 'MAR', '5K', '7K'):
+        for s_ in spellings(e):
+            call(athlib.wma_age_factor, 'm', 50, s_)
+            call(athlib.wma_world_best, 'f', s_)
+    out = []
+    for tab, k in table_keys():
+        for v in examine_key({'kind': 'key', 'table': tab, 'key': k}):
+            v['sig'] = v['sig'] + ['after-usage']
+            v['case'] = {'kind': 'usage', 'table': tab, 'key': k}
+            out.append(v)
+    return out
+
+
 def examine(case):
     k = case['kind']
+    if k == 'usage':
+        return examine_usage(case)
     if k == 'specific':
         return examine_specific(case)
     if k == 'masters':
@@ -199,6 +250,11 @@ def run(ctx):
         ctx.violations(examine_key({'kind': 'key', 'table': tab, 'key': k}))
         ctx.nontrivial(('key', tab, k))
     ctx.extra['table_keys'] = len(keys)
+    # the key sets must stay inside the vocabulary while the library is USED: score through every table with caller
+    # spellings (padded, lower case, kg / zero variants), then enumerate the keys again
+    ctx.violations(examine_usage({'kind': 'usage'}))
+    ctx.count(len(table_keys()))
+    ctx.label('table-keys-after-usage')
 
     thorough = ctx.tier == 'thorough'
     g = codegen.Gen(codes.PAT_EVENT_CODE, 'PAT_EVENT_CODE')
